@@ -34,7 +34,7 @@ theorem effStart_nls (c : Option Nat) (a ind : Nat) (role : TextPos) (h : (role 
 
 theorem mlElems_text (nl : Bool) (v : Bytes) (es : List (PatElem Bytes)) :
     mlElems nl (.text v :: es) =
-      (mlTextOK v && (match es with | .text _ :: _ => endsNl v | _ => true) &&
+      (mlTextOK v && (match es with | .text u :: _ => endsNl v || (endsCr v && u == [10]) | _ => true) &&
         (!nl || v == [10] || lineStartOK v es) && mlElems (endsNl v) es) := by
   cases es with
   | nil => simp [mlElems]
@@ -161,7 +161,7 @@ theorem fin_text_keep {s : Src} {c : Option Nat} {lnb i : Nat} {E E' : PSt} {ph 
           | text w =>
             simp only []
             cases hen : endsNl v with
-            | true => rw [hnl]; exact hen
+            | true => rw [hnl]; simp [hen]
             | false => exact absurd hB (hF.noText (hnt hen) w xs)
       · cases hn : nlOf E with
         | false => rfl
@@ -177,7 +177,7 @@ theorem fin_text_keep {s : Src} {c : Option Nat} {lnb i : Nat} {E E' : PSt} {ph 
 /-- a text element that is the last one (already trimmed) -/
 theorem fin_text_last {s : Src} {c : Option Nat} {lnb : Nat} {E : PSt} {ph : Placeholder}
     {rest : List Placeholder} (v : Bytes) (hv : mlTextOK v = true)
-    (hlast : v.getLast? ≠ some 32 ∧ v.getLast? ≠ some 10)
+    (hlast : v.getLast? ≠ some 32 ∧ v.getLast? ≠ some 10 ∧ v.getLast? ≠ some 13)
     (hls : nlOf E = true → (v == [10] || lineStartOK v []) = true)
     (hexc : (if nlOf E && v != [10] then [leadSpaces v] else []) = (lineInd s E ph).map (eff c))
     (hE : E ≠ .afterText ∧ E ≠ .afterGhost)
@@ -191,7 +191,7 @@ theorem fin_text_last {s : Src} {c : Option Nat} {lnb : Nat} {E : PSt} {ph : Pla
       cases hn : nlOf E with
       | false => rfl
       | true => simpa using hls hn
-    last := by simp [mlLastOK, hlast.1, hlast.2]
+    last := by simp [mlLastOK, hlast.1, hlast.2.1, hlast.2.2]
     ne := by simp
     exc := by
       rw [take_cons_k _ _ _ _ (Nat.le_refl _), excesses_text]
@@ -246,10 +246,10 @@ theorem fin_text_gen {s : Src} {c : Option Nat} {lnb i : Nat} {E : PSt} {a b ind
         (fun h0 => hfL h0 t (by omega) htb (Or.inl hat))
       rw [spanBytes_getLast (by omega) (by omega)]
       have hgo : t = trimEndGo s a' (b - a') b := by rw [← ht]; rfl
-      obtain ⟨x, hx, x1, x2, _⟩ := trimEndGo_last s a' (b - a') b (Nat.le_refl _) hbs (by rw [← hgo]; omega)
+      obtain ⟨x, hx, x1, x2, x3⟩ := trimEndGo_last s a' (b - a') b (Nat.le_refl _) hbs (by rw [← hgo]; omega)
       rw [← hgo] at hx
       rw [hx]
-      exact ⟨fun h0 => x1 (by cases h0; rfl), fun h0 => x2 (by cases h0; rfl)⟩
+      exact ⟨fun h0 => x1 (by cases h0; rfl), fun h0 => x2 (by cases h0; rfl), fun h0 => x3 (by cases h0; rfl)⟩
     · -- not the last element
       have hni : (lnb == i) = false := by simp; omega
       simp only [hni, Bool.false_eq_true, if_false, mapPat, PatElem.mapS]
@@ -351,10 +351,10 @@ theorem fin_blank {s : Src} {c : Option Nat} {lnb i : Nat} {a b ind : Nat}
     subst this
     rw [spanBytes_cons h10 (by omega), spanBytes_nil (Nat.le_refl _)]
   have hTB : TextBytes s a (a + 1) := by
-    refine ⟨by omega, ?_, fun j j1 j2 => by omega⟩
+    refine ⟨by omega, ?_, fun j j1 j2 => by omega, fun j j1 j2 => by omega⟩
     intro j j1 j2
     have : j = a := by omega
-    subst this; rw [h10]; exact ⟨by decide, by decide, by decide⟩
+    subst this; rw [h10]; exact ⟨by decide, by decide⟩
   have hblank : isBlankPh s a (a + 1) 0 = true := by simp [isBlankPh, h10]
   refine fin_text_gen hi a ha' (Nat.le_refl _) (by omega) (by omega) (by simp [isGhost]) hTB ⟨by simp, by simp⟩
     (fun _ t B' t1 t2 _ => by rw [hv t t1 t2]; rfl) ?_ (fun h0 => by cases h0) (fun h0 => by cases h0) hsurv htail h
